@@ -293,6 +293,7 @@ type FuncResult struct {
 }
 
 func (e *Engine) newFnCtx(key string) *FnCtx {
+	defTable = map[string]*Term{}
 	return &FnCtx{eng: e, sc: NewScript(), key: shortName(key), initHeaps: map[string]*Term{}, heapSorts: map[string]Sort{},
 		kindCount: map[string]int{}, assumptions: map[string]bool{}, inlined: map[string]bool{}, usedContracts: map[string]bool{},
 		ifaceAsserts: map[int]types.Type{}, concreteTags: map[int]types.Type{}, closures: map[string]*closureRec{}, initGhosts: map[string]*Term{}}
